@@ -487,16 +487,16 @@ func c10(c *rig.Ctx) {
 
 	// 1. table-file store: both table files and the manifest exhaustively
 	f1 := must(c10FixtureTables("tables-small", mk("tables-small"), r, 9, 4, 24))
-	plans = append(plans, tgtPlan{f1, anyFile, c10Plan{exhaustive: true}})
+	plans = append(plans, tgtPlan{f1, anyFile, c10Plan{exhaustive: true, fieldInst: 3}})
 	// 2. larger table file (sampled)
 	f2 := must(c10FixtureTables("tables-large", mk("tables-large"), r, 260, 0, 90))
 	plans = append(plans, tgtPlan{f2, kindIs("tablefile"), c10Plan{singles: S(180, 4000), bursts: S(120, 3000), truncs: S(100, 2000), fieldInst: S(12, 200)}})
 	// 3. snappy archive, in-memory index reader: exhaustive
 	f3 := must(c10FixtureArchive("archive-snappy", mk("archive-snappy"), r, 8, false, false, 20))
-	plans = append(plans, tgtPlan{f3, kindIs("archive"), c10Plan{exhaustive: true}})
+	plans = append(plans, tgtPlan{f3, kindIs("archive"), c10Plan{exhaustive: true, fieldInst: 3}})
 	// 4. the same shape through the mmap index reader: index / metadata / footer exhaustively, data spans not again
 	f4 := must(c10FixtureArchive("archive-snappy-mmap", mk("archive-snappy-mmap"), r, 8, false, true, 20))
-	plans = append(plans, tgtPlan{f4, kindIs("archive"), c10Plan{exhaustive: true, skip: func(rg string) bool {
+	plans = append(plans, tgtPlan{f4, kindIs("archive"), c10Plan{exhaustive: true, fieldInst: 3, skip: func(rg string) bool {
 		return strings.Contains(rg, "chunk-span") || strings.Contains(rg, "footer-checksums")
 	}}})
 	// 5. archive with a dictionary span and zstd chunks
@@ -508,13 +508,13 @@ func c10(c *rig.Ctx) {
 		}
 	}
 	if sz5 <= c10SmallFile {
-		plans = append(plans, tgtPlan{f5, kindIs("archive"), c10Plan{exhaustive: true, skip: func(rg string) bool { return strings.Contains(rg, "footer-checksums") }}})
+		plans = append(plans, tgtPlan{f5, kindIs("archive"), c10Plan{exhaustive: true, fieldInst: 3, skip: func(rg string) bool { return strings.Contains(rg, "footer-checksums") }}})
 	} else {
 		plans = append(plans, tgtPlan{f5, kindIs("archive"), c10Plan{singles: S(150, 3000), bursts: S(80, 2000), truncs: S(80, 1000), fieldInst: 0}})
 	}
 	// 6. chunk journal: 4 commits; journal file, manifest and index file
 	f6 := must(c10FixtureJournal("journal-small", mk("journal-small"), r, []int{4, 3, 4, 3}, 24))
-	plans = append(plans, tgtPlan{f6, func(t c10Target) bool { return t.Kind == "journal" || t.Kind == "manifest" }, c10Plan{exhaustive: true}})
+	plans = append(plans, tgtPlan{f6, func(t c10Target) bool { return t.Kind == "journal" || t.Kind == "manifest" }, c10Plan{exhaustive: true, fieldInst: 3}})
 	plans = append(plans, tgtPlan{f6, kindIs("journalidx"), c10Plan{singles: S(25, 200), bursts: S(10, 100), truncs: S(20, 200), fieldInst: S(4, 30)}})
 	// 7. journal large enough for the writer to flush index metadata: reopen is served from journal.idx
 	f7 := must(c10FixtureJournal("journal-indexed", mk("journal-indexed"), r, []int{16500, 6, 5}, 3))
